@@ -96,7 +96,7 @@ pub fn run(tier: &str, seed: u64, cases_path: &str, impl_path: &str) {
     let mut cases = std::io::BufWriter::new(std::fs::File::create(cases_path).unwrap());
     let mut out = std::io::BufWriter::new(std::fs::File::create(impl_path).unwrap());
     let mut rng = Rng::new(seed);
-    let maxlen = if tier == "thorough" { 7 } else { 5 };
+    let maxlen = if tier == "thorough" { 6 } else { 5 };
     let mut mats: Vec<[bool; 16]> = vec![f64_matrix(), [false; 16], [true; 16]];
     let mut ident = [false; 16];
     for i in 0..4 {
@@ -136,7 +136,7 @@ pub fn run(tier: &str, seed: u64, cases_path: &str, impl_path: &str) {
     }
     // one very long append-only history: token freshness past every narrower index width
     {
-        let n: usize = if tier == "thorough" { 300_000 } else { 70_000 };
+        let n: usize = if tier == "thorough" { 110_000 } else { 70_000 };
         let mut st: Storage<u32> = Storage::new();
         let mut seen = std::collections::HashSet::new();
         let mut first_dup: Option<usize> = None;
@@ -165,7 +165,7 @@ pub fn run(tier: &str, seed: u64, cases_path: &str, impl_path: &str) {
         .unwrap();
     }
     // random long histories
-    let nrand = if tier == "thorough" { 20000 } else { 2000 };
+    let nrand = if tier == "thorough" { 60000 } else { 2000 };
     for _ in 0..nrand {
         let m = *rng.pick(&mats);
         let len = 8 + rng.below(40) as usize;
